@@ -251,13 +251,37 @@ def run_case(case, ctx):
                 d, _ = ref.rhs(dict(zip(skeys, y)), p0, t, inputs=input_values(plan_, t=t, T=T, N=N))
                 return [d[k] for k in skeys]
             times = np.asarray(df.index, dtype=float)
-            sol = solve_ivp(f, (0.0, T), [float(ref.val[k]) for k in skeys], method='DOP853', rtol=1e-11, atol=1e-13,
-                            t_eval=times, max_step=T / (N - 1) / 2)
-            if not sol.success:
+            # reference solution: the interpolated input has a kink at every sample, so the reference integrates from sample to
+            # sample (smooth pieces, restarted at the kinks) at tight tolerance
+            grid_ = np.linspace(0.0, T, N)
+            y_ = np.array([float(ref.val[k]) for k in skeys])
+            full = np.zeros((len(times), len(skeys)))
+            done = np.zeros(len(times), dtype=bool)
+            ok_ = True
+            for gi in range(N - 1):
+                a_, b_ = float(grid_[gi]), float(grid_[gi + 1])
+                sel = np.nonzero((~done) & (times >= a_ - 1e-15) & (times <= b_ + 1e-15))[0]
+                te = np.unique(np.concatenate([np.clip(times[sel], a_, b_), [b_]]))
+                seg = solve_ivp(f, (a_, b_), y_, method='DOP853', rtol=1e-12, atol=1e-14, t_eval=te)
+                if not seg.success:
+                    ok_ = False
+                    break
+                for j in sel:
+                    full[j] = seg.y[:, int(np.argmin(np.abs(te - min(max(times[j], a_), b_))))]
+                    done[j] = True
+                y_ = seg.y[:, -1]
+            if not ok_ or not done.all():
                 res.update(status='discard', symptom='reference solver failed', mech=mech)
                 return res
-            exp = sol.y.T[:, [skeys.index(k) for k in keys]]
-            msg = observe.compare_traj(df.values, exp, rtol=2e-6)
+            exp = full[:, [skeys.index(k) for k in keys]]
+            # what the SAME method and settings (RK45, rtol 1e-9, first step dt, step limit) achieve on the reference right-hand
+            # side: the error control of an explicit method is unreliable at the kinks (deviations of 1e-6 .. 1e-5 from the
+            # solution although rtol = 1e-9); the run is judged against that, not against a constant
+            hand = solve_ivp(f, (0.0, T), [float(ref.val[k]) for k in skeys], method='RK45', rtol=1e-9, atol=1e-11, t_eval=times,
+                             max_step=T / (N - 1) / 2, first_step=dt)
+            err_hand = float(np.max(np.abs(hand.y.T - full))) if hand.success and hand.y.shape[1] == len(times) else 0.0
+            scale_ = max(1.0, float(np.max(np.abs(exp)))) if exp.size else 1.0
+            msg = observe.compare_traj(df.values, exp, rtol=max(2e-6, (5 * err_hand + 1e-7) / scale_))
             if msg == 'discard':
                 res.update(status='discard', symptom='reference not finite', mech=mech)
                 return res
